@@ -38,6 +38,8 @@ def teardown(ctx):
 
 def cases(tier, seed):
     out = pool.pool_cases(tier, seed, ['c01', 'c02', 'c07', 'c08', 'c13', 'c09'], 120 if tier == 'quick' else 800)
+    if tier == 'thorough':
+        out.insert(0, pool.ambient_case(PID))
     for prog in progs.cat():
         for rep in range(1 if tier == 'quick' else 3):
             out.append({'kind': 'program', 'seed': case_seed('C12', seed, prog.name, rep), 'params': {'prog': prog.name, 'P': 1 + rep % 2, 'D': [3, 2, 5][rep % 3]}})
@@ -51,6 +53,12 @@ def cases(tier, seed):
 def run_case(ctx, case):
     if case['kind'] == 'pool':
         return pool.run_host(case)
+    if case['kind'] == 'ambient':
+        probe.S.suppress = True
+        try:
+            return pool.run_ambient(ctx, PID)
+        finally:
+            probe.S.suppress = False
     rng = gen.rng_of(case)
     if case['kind'] == 'hostile':
         return _hostile(ctx, case['params'], rng)
